@@ -236,6 +236,10 @@ fn main() {
             let p = build_pools();
             println!("exprs={} holiday={} easter={} countries={} excluded={}", p.exprs.len(), p.holiday_exprs.len(), p.easter_exprs.len(), p.countries.len(), p.excluded.len());
             println!("border pairs: {:?}", p.border_pairs);
+            println!("spacing variants: {}", p.spacing_variants.len());
+            for (a, b) in p.spacing_variants.iter().take(12) {
+                println!("  {a:?} ~ {b:?}");
+            }
             for (e, why) in &p.excluded {
                 println!("  excluded {e:?}: {why}");
             }
